@@ -1,8 +1,18 @@
 (* Executable comparison functions used by the correspondence checks (K1, K2, K3).
    The harness writes the observations of the real code as Coq terms; these functions
    evaluate the model on the same inputs and return the indices that disagree. *)
+From Coq Require Import Ascii.
 From XdrModel Require Export Render.
 Open Scope string_scope.
+
+(* a panic site "<file>:<fn>" is compared at file granularity: moving a panic!/unwrap into a
+   helper function of the same file is not a different site *)
+Fixpoint site_file (s : string) : string :=
+  match s with
+  | EmptyString => EmptyString
+  | String c r => if Ascii.eqb c ":"%char then EmptyString else String c (site_file r)
+  end.
+Definition same_site (w w' : string) : bool := String.eqb (site_file w) (site_file w').
 
 (* ---------- K2: emitted text ---------- *)
 
@@ -25,7 +35,7 @@ Definition k2_one (a : ast) (derive : string) (r : real_gen) : N :=
     if (same_multiset (render_items derive m) items && String.eqb closing ("}" ++ nl))%bool
     then 0%N else 2%N
   | EErr _, RGErr => 0%N
-  | EPanic w, RGPanic w' => if String.eqb w w' then 0%N else 3%N
+  | EPanic w, RGPanic w' => if same_site w w' then 0%N else 3%N
   | _, _ => 1%N
   end.
 
@@ -132,7 +142,7 @@ Inductive real_ast := RAOk (a : ast) | RAErr | RAPanic (where_ : string).
 Definition parse_fuel (text : string) : nat := (80 + 24 * String.length text)%nat.
 
 (* 0 agree; 1 token tree differs; 2 accepted/rejected differs; 3 AST outcome class differs;
-   4 AST differs; 5 panic site differs; 9 out of fuel *)
+   4 AST differs; 5 panic site (file) differs; 9 out of fuel *)
 Definition k1_one (text : string) (rt : option tree) (ra : real_ast) : N :=
   match parse xdr_grammar (parse_fuel text) text, rt with
   | PFuel, _ => 9%N
@@ -144,7 +154,7 @@ Definition k1_one (text : string) (rt : option tree) (ra : real_ast) : N :=
       match ast_new t, ra with
       | EOk a, RAOk a' => if ast_eqb a a' then 0%N else 4%N
       | EErr _, RAErr => 0%N
-      | EPanic w, RAPanic w' => if String.eqb w w' then 0%N else 5%N
+      | EPanic w, RAPanic w' => if same_site w w' then 0%N else 5%N
       | _, _ => 3%N
       end
     else 1%N
@@ -170,7 +180,7 @@ Definition k5_one (text : string) (ds : list sdecl) (ra : real_ast) : N :=
     if tree_eqb (erase t) (tree_of ds) then
       match ebind (emapM item_of ds) (fun items => ast_of_root (NRoot (items ++ [NEOF]))), ra with
       | EOk a, RAOk a' => if ast_eqb a a' then 0%N else 4%N
-      | EPanic w, RAPanic w' => if String.eqb w w' then 0%N else 5%N
+      | EPanic w, RAPanic w' => if same_site w w' then 0%N else 5%N
       | _, _ => 4%N
       end
     else 2%N
